@@ -75,6 +75,13 @@ class World:
             return Q.from_(inner).select(inner.id).union(Q.from_(inner).select(inner.x)).as_(name + "_so")
         if shape == "cte":
             return r["AliasedQuery"](name + "_cte")
+        # derived sources that nobody has named (never put into a FROM clause or joined): alias None
+        if shape == "subquery-unnamed":
+            inner = T(name + "_in")
+            return Q.from_(inner).select(inner.id, inner.x)
+        if shape == "setop-unnamed":
+            inner = T(name + "_in")
+            return Q.from_(inner).select(inner.id).union(Q.from_(inner).select(inner.x))
         raise ValueError(shape)
 
     def equal_copy(self, shape, name, original):
@@ -147,6 +154,16 @@ def cases(tier, seed, shard, nshards):
                 continue
             yield {"k": "join", "d": dl[k % 6], "base": "plain", "item": ["plain", "aliased", "subquery"][k % 3], "l": lsrc, "r": rsrc, "samecol": True,
                    "form": form, "extra": [], "pre": None}
+    # the source the criterion wrongly names is of every shape, named or not (the exception must come out whatever it takes to
+    # describe the missing source)
+    for fshape in SRC_SHAPES + ["subquery-unnamed", "setop-unnamed"]:
+        for base in ("plain", "aliased", "subquery"):
+            for lsrc, rsrc in (("foreign", "item"), ("base", "foreign"), ("foreign", "foreign"), ("foreign", "base")):
+                for form in ("plain", "arith"):
+                    k += 1
+                    if k % nshards == shard:
+                        yield {"k": "join", "d": dl[k % 6], "base": base, "item": "plain", "l": lsrc, "r": rsrc, "samecol": bool(k % 2), "form": form,
+                               "extra": [], "pre": None, "foreign_shape": fshape}
     for base in ("plain", "schema", "schema-chain", "temporal"):
         for lsrc, rsrc in itertools.product(["base", "item", "foreign", "undeclared-cte", "base-near", "none"], repeat=2):
             for form in ("plain", "arith", "fn"):
@@ -162,7 +179,7 @@ def cases(tier, seed, shard, nshards):
         yield {"k": "join", "d": rnd.choice(dl), "base": rnd.choice(SRC_SHAPES), "item": rnd.choice(SRC_SHAPES),
                "l": rnd.choice(srcs), "r": rnd.choice(srcs), "samecol": rnd.random() < 0.5, "form": rnd.choice(OPERAND_FORMS),
                "extra": [[rnd.choice(srcs), rnd.choice(srcs), rnd.choice(["and", "or"])] for _ in range(rnd.randint(0, 2))],
-               "how": rnd.choice(["on", "on", "on", "using", "on_field", "cross"]), "foreign_shape": rnd.choice(SRC_SHAPES[:5]),
+               "how": rnd.choice(["on", "on", "on", "using", "on_field", "cross"]), "foreign_shape": rnd.choice(SRC_SHAPES + ["subquery-unnamed", "setop-unnamed"]),
                "pre": rnd.choice([None, None, "siblings", "render", "copy"])}
     # set operations
     for d in dl:
@@ -172,6 +189,12 @@ def cases(tier, seed, shard, nshards):
                     k += 1
                     if k % nshards == shard:
                         yield {"k": "setop", "d": d, "n0": n0, "others": list(chain[:ln])}
+        for star in ("str", "obj", "table"):
+            for n0 in (1, 2, 3):
+                for others in ([1], [2], [1, 2], [2, 1], [3, 1], [1, 1]):
+                    k += 1
+                    if k % nshards == shard:
+                        yield {"k": "setop", "d": d, "n0": n0, "others": others, "star": star}
         # operands without any select term (arity 0), in every position of chains of one to three operands; three-operand chains
         for n0 in range(0, 3):
             for chain in itertools.product(range(0, 3), repeat=3):
@@ -511,6 +534,9 @@ def run_setop(case, mon):
     def operand(n):
         if n == 0 and case.get("empty_form") == "no-select":
             return Q.from_(t)
+        if n == 1 and case.get("star"):
+            # one select item that is a star (the library compares the number of select items, whatever they are)
+            return Q.from_(t).select({"str": "*", "obj": reg["Star"](), "table": t.star}[case["star"]])
         return Q.from_(t).select(*[t.field(c) for c in cols[:n]])
     base = operand(case["n0"])
     so = None
